@@ -26,6 +26,13 @@
 (*           responder finds no responder and is not handed over until     *)
 (*           something else wakes the poll; repaired, whoever registers a  *)
 (*           responder looks at the queue again afterwards.                *)
+(*  FixOrder the Invoke queued its call (calls.Append) before it had put    *)
+(*           its result channel into the table (results.Set): a provider   *)
+(*           that fetches, executes and reports the call in between finds  *)
+(*           no channel for the index, the result is dropped and the       *)
+(*           caller waits until its time-out (found in the real code by    *)
+(*           the first-calls driver, then reproduced here); repaired, the  *)
+(*           channel is in the table before the call can be fetched.       *)
 (*                                                                         *)
 (* Checked: NoDeadLetter (no queued call ends in the channel of a poll     *)
 (* that has returned), NoStuckPoll (no poll blocks for ever writing its    *)
@@ -39,7 +46,7 @@ EXTENDS Integers, Sequences, FiniteSets, TLC
 
 CONSTANTS Polls,      \* poll instances of the provider, issued one after the other (1..n)
           Calls,      \* call indexes; Invoke i queues call i
-          FixIdle, FixStop, FixWake,
+          FixIdle, FixStop, FixWake, FixOrder,
           CallTimeouts  \* whether an Invoke may give up (its Timeout fires)
 
 None == <<>>
@@ -164,10 +171,15 @@ PEnd(i) == /\ i \in executed
            /\ UNCHANGED <<cache, reg, chan, ppc, phand, presp, upc, uhand, uresp, outcome, fetched, cur, stopped>>
 
 \* ---- Invoke
-UAppend(i) == /\ upc[i] = "idle"
-              /\ cache' = Append(cache, i) /\ pending' = pending \cup {i}
-              /\ upc' = [upc EXCEPT ![i] = "pop"]
-              /\ UNCHANGED <<reg, chan, ppc, phand, presp, uhand, uresp, result, outcome, fetched, executed, reported, cur, stopped>>
+\* calls.Append and results.Set are two steps; FixOrder decides which comes first
+UAppend(i) == /\ upc[i] = (IF FixOrder THEN "append" ELSE "idle")
+              /\ cache' = Append(cache, i)
+              /\ upc' = [upc EXCEPT ![i] = IF FixOrder THEN "pop" ELSE "setres"]
+              /\ UNCHANGED <<reg, chan, ppc, phand, presp, uhand, uresp, pending, result, outcome, fetched, executed, reported, cur, stopped>>
+USetRes(i) == /\ upc[i] = (IF FixOrder THEN "idle" ELSE "setres")
+              /\ pending' = pending \cup {i}
+              /\ upc' = [upc EXCEPT ![i] = IF FixOrder THEN "append" ELSE "pop"]
+              /\ UNCHANGED <<cache, reg, chan, ppc, phand, presp, uhand, uresp, result, outcome, fetched, executed, reported, cur, stopped>>
 
 UPop(i) == /\ upc[i] = "pop"
            /\ IF reg # 0 THEN uresp' = [uresp EXCEPT ![i] = reg] /\ reg' = 0 /\ upc' = [upc EXCEPT ![i] = "take"]
@@ -207,7 +219,7 @@ UTimeout(i) == /\ CallTimeouts /\ upc[i] = "await" /\ result[i] = 0
 
 PollStep(r) == PStart(r) \/ PPopOld(r) \/ PTake(r) \/ PPut(r) \/ PRegister(r) \/ PCheck(r) \/ PRPop(r) \/ PRTake(r) \/ PRPut(r)
                \/ PRRereg(r) \/ PWait(r) \/ PGiveUp(r) \/ PAbandon(r)
-CallStep(i) == UAppend(i) \/ UPop(i) \/ UTake(i) \/ UPut(i) \/ URereg(i) \/ UCheck(i) \/ URecv(i)
+CallStep(i) == UAppend(i) \/ USetRes(i) \/ UPop(i) \/ UTake(i) \/ UPut(i) \/ URereg(i) \/ UCheck(i) \/ URecv(i)
 ProvStep(i) == PExecute(i) \/ PEnd(i)
 Next == (\E r \in Polls : PollStep(r) \/ PTimeout(r)) \/ (\E i \in Calls : CallStep(i) \/ ProvStep(i) \/ UTimeout(i))
 Spec == Init /\ [][Next]_vars
@@ -225,18 +237,21 @@ NoStuckPoll == \A r \in Polls : ppc[r] = "giveup" => chan[r] = None
 Holders(i) == (IF i \in Range(cache) THEN 1 ELSE 0) + (IF i \in Range(fetched) THEN 1 ELSE 0)
               + Cardinality({r \in Polls : i \in Range(phand[r]) \/ i \in Range(InChan(r))})
               + Cardinality({j \in Calls : i \in Range(uhand[j])})
-Conservation == \A i \in Calls : upc[i] \notin {"idle"} /\ outcome[i] # "timeout" => Holders(i) = 1
+Conservation == \A i \in Calls : upc[i] \notin {"idle", "append"} /\ outcome[i] # "timeout" => Holders(i) = 1
 
 \* C09: a call returns the result of its own index, produced by the provider for a call it fetched
 OwnResult == \A i \in Calls : /\ result[i] \in {0, i}
                               /\ (result[i] # 0 => i \in Range(fetched))
                               /\ (outcome[i] = "resp" => result[i] = i)
 
+\* a result the provider has reported reaches the caller that has not given up
+NoLostResult == \A i \in Calls : (i \in reported /\ outcome[i] # "timeout") => result[i] = i
+
 \* only null stops the provider: an idle time-out does not
 ProviderPolls == stopped # "empty"
 
 \* no call stays queued while a registered poll waits and nobody is about to hand it over
-Busy == (\E i \in Calls : upc[i] \in {"pop", "take", "put", "rereg", "check"})
+Busy == (\E i \in Calls : upc[i] \in {"append", "setres", "pop", "take", "put", "rereg", "check"})
         \/ (\E r \in Polls : ppc[r] \in {"popold", "take", "put", "register", "check", "rpop", "rtake", "rput", "rrereg"})
 NoSleepingCall == (~Busy /\ reg # 0 /\ ppc[reg] = "wait") => cache = <<>>
 
